@@ -595,6 +595,93 @@ pub fn run_leaf_step(pre : &PreD) -> Vec<Violation>
     v
 }
 
+/*  ---- C12: the real sorter on the solver's rule set, judged by the shared oracle ---- */
+pub fn run_sort_case(bytes : &[u8], two_target_rule : bool, fixed_n : Option<usize>, fixed_ns : Option<usize>) -> Vec<Violation>
+{
+    use crate::sortcase::{self, Expect, NR};
+    use crate::rule::Rule;
+    use crate::sort::{topological_sort, topological_sort_all, TopologicalSortError, SourceIndex};
+    let mut raw = Raw { bytes : [0u8; NRAW], pos : 0 };
+    for (i, b) in bytes.iter().enumerate().take(NRAW) { raw.bytes[i] = *b; }
+    let c = sortcase::decode(&mut raw, two_target_rule, fixed_n, fixed_ns);
+    let name = |b : u8| -> String { (b as char).to_string() };
+    let order = sortcase::input_order(&c);
+    let mut rules = vec![];
+    for k in 0..NR
+    {
+        if k < c.n
+        {
+            let r = &c.rules[order[k]];
+            let t : Vec<String> = (0..r.nt).map(|i| name(r.t[i])).collect();
+            let s : Vec<String> = (0..r.ns).map(|i| name(r.s[i])).collect();
+            rules.push(Rule::new(t, s, vec!["x".to_string()]));
+        }
+    }
+    let shown = format!("{:?} goal {:?}", rules.iter().map(|r| format!("{:?}<-{:?}", r.targets, r.sources)).collect::<Vec<_>>(), c.goal.map(|g| g as char));
+    let r = match c.goal
+    {
+        Some(g) => topological_sort(rules, &name(g)),
+        None => topological_sort_all(rules),
+    };
+    let exp = sortcase::expected(&c);
+    let mut v = vec![];
+    let mut bad = |role : &str, what : String| v.push(Violation { properties : vec!["C12"], role : role.to_string(), what : what });
+    match (&r, exp)
+    {
+        (Err(TopologicalSortError::TargetInMultipleRules(_)), Expect::DuplicateTarget) => {},
+        (Err(TopologicalSortError::TargetMissing(n)), Expect::GoalMissing) =>
+        {
+            if Some(n.as_bytes()[0]) != c.goal { bad("sorter: 'target missing' does not name the goal", format!("{} -> {:?}", shown, r)); }
+        },
+        (Err(TopologicalSortError::SelfDependentRule(_)), Expect::Cycle { self_dep : true, .. }) => {},
+        (Err(TopologicalSortError::CircularDependence(_)), Expect::Cycle { longer : true, .. }) => {},
+        (Err(TopologicalSortError::CircularDependence(cyc)), Expect::Plan { .. }) =>
+            bad("sort_once: circular dependence reported for an acyclic rule set", format!("{} is acyclic but the sorter answers CircularDependence({:?})", shown, cyc)),
+        (Err(e), exp) => bad("sorter: error kind does not match the rule set", format!("{} -> {:?}, oracle {:?}", shown, e, exp)),
+        (Ok(pack), Expect::Plan { in_plan }) =>
+        {
+            let want = in_plan.iter().filter(|b| **b).count();
+            if pack.nodes.len() != want { bad("sorter: plan does not contain exactly the rules in scope", format!("{} -> {} nodes, oracle {}", shown, pack.nodes.len(), want)); }
+            let mut seen = [false; NR];
+            for (p, node) in pack.nodes.iter().enumerate()
+            {
+                let ridx = match sortcase::producer(&c, node.targets[0].as_bytes()[0]) { Some(i) => i, None => { bad("sorter: plan entry is no rule", shown.clone()); continue; } };
+                if !in_plan[ridx] || seen[ridx] { bad("sorter: plan contains an out-of-scope or repeated rule", shown.clone()); }
+                seen[ridx] = true;
+                let rule = &c.rules[ridx];
+                let mut st : Vec<u8> = (0..rule.nt).map(|i| rule.t[i]).collect(); st.sort();
+                let mut ss : Vec<u8> = (0..rule.ns).map(|i| rule.s[i]).collect(); ss.sort();
+                if node.targets.iter().map(|t| t.as_bytes()[0]).collect::<Vec<u8>>() != st { bad("sorter: plan entry targets not canonical", shown.clone()); }
+                if node.source_indices.len() != ss.len() { bad("sorter: plan entry does not bind every source", shown.clone()); continue; }
+                for (q, nm) in ss.iter().enumerate()
+                {
+                    match (&node.source_indices[q], sortcase::producer(&c, *nm))
+                    {
+                        (SourceIndex::Pair(i, sub), Some(_)) =>
+                        {
+                            if !(*i < p && *sub < pack.nodes[*i].targets.len() && pack.nodes[*i].targets[*sub].as_bytes()[0] == *nm)
+                            {
+                                bad("sorter: source bound to the wrong producer/target or to a later rule", format!("{} -> node {} source {} = Pair({},{})", shown, p, *nm as char, i, sub));
+                            }
+                        },
+                        (SourceIndex::Leaf(l), None) =>
+                        {
+                            if !(*l < pack.leaves.len() && pack.leaves[*l].as_bytes()[0] == *nm) { bad("sorter: leaf source bound to the wrong leaf", shown.clone()); }
+                        },
+                        _ => bad("sorter: leaf/rule binding confused", shown.clone()),
+                    }
+                }
+            }
+            for l in 1..pack.leaves.len()
+            {
+                if pack.leaves[l - 1] >= pack.leaves[l] { bad("sorter: leaves not canonical", shown.clone()); }
+            }
+        },
+        (Ok(_), exp) => bad("sorter: invalid rule set accepted", format!("{} accepted, oracle {:?}", shown, exp)),
+    }
+    v
+}
+
 fn parse_script(path : &str) -> (String, Vec<u8>)
 {
     let txt = std::fs::read_to_string(format!("{}.txt", path)).expect("replay script .txt");
@@ -665,6 +752,13 @@ pub fn run_harness_natively(harness : &str, bytes : &[u8]) -> (Vec<Violation>, b
     {
         let pre = prestate::decode(&mut raw, n, Clock::Distinct, true);
         run_clean_then_build(&pre)
+    }
+    else if harness.starts_with("sort_dag")
+    {
+        /*  harness name: sort_dag_<n>[_s<ns>][_two_targets], e.g. sort_dag_3_s2 */
+        let fixed_n = harness.trim_start_matches("sort_dag_").chars().next().and_then(|c| c.to_digit(10)).map(|d| d as usize);
+        let fixed_ns = harness.find("_s").and_then(|i| harness[i + 2..].chars().next()).and_then(|c| c.to_digit(10)).map(|d| d as usize);
+        run_sort_case(bytes, harness.contains("two_targets"), fixed_n, fixed_ns)
     }
     else if harness.starts_with("step_leaf")
     {
